@@ -2694,6 +2694,13 @@ namespace awkward {
               return;
             }
             num_items = stack_pop();
+            // Every item takes at least one bit of input: a count outside of this range
+            // cannot be satisfied (and its size in bytes might not fit an integer).
+            ForthInputBuffer* repeated = current_inputs_[(IndexTypeOf<int64_t>)in_num].get();
+            if (num_items < 0  ||  num_items > 8 * (repeated->len() - repeated->pos())) {
+              current_error_ = util::ForthError::read_beyond;
+              return;
+            }
           }
 
           I format = ~bytecode & READ_MASK;
